@@ -44,10 +44,14 @@ REQUIRED_W = [
     'rdW_append_not_covered', 'rdW_items_covered', 'cellOf_mark', 'inv2_init', 'inv2_putData', 'inv2_putChunk', 'inv2_snapPhase', 'inv2_hdrPhase',
     'inv2_itemsPhase', 'inv2_flushCore', 'inv2_step', 'inv2_run', 'closedOk_run', 'final_image', 'complete_image', 'order_chunking_independent',
     # C09Wf.lean: layout => well-formed configuration; the no-rewrite hypothesis is needed
-    'packed_ranges_lower', 'packed_ranges_ordered', 'wf_of_layout', 'rewrite_counter_example']
+    'packed_ranges_lower', 'packed_ranges_ordered', 'wf_of_layout', 'rewrite_counter_example',
+    # C09Amp.lean: which AmpSF a formatted chunk is encoded with
+    'writePvp_out', 'amp_after_accepted_pvp', 'amp_unchanged', 'chunk_scaled_by_current_amp', 'amp_is_last_accepted',
+    'formatted_chunk_uses_last_accepted_pvp']
 # restatements for the CRSD instantiation in lean/SarpyModel/Props/C11W.lean (namespace Sarpy.Props.C11)
 REQUIRED_W11 = ['crsd_headerBytes_length', 'crsd_text_file_wellformed', 'crsd_retry_terminates_7', 'chooseCrsd_terminates_7',
-                'crsd_write_after_close_refused', 'crsd_refused_keeps_file', 'crsd_fo_log_shape', 'crsd_close_report_exact', 'crsd_complete_image']
+                'crsd_write_after_close_refused', 'crsd_refused_keeps_file', 'crsd_fo_log_shape', 'crsd_close_report_exact', 'crsd_complete_image',
+                'crsd_formatted_chunk_uses_last_accepted_pvp']
 
 
 class Proxy:
@@ -97,10 +101,11 @@ def gen_case(rng, kind):
     else:
         sup = [(rng.randint(1, 4), rng.randint(1, 4), rng.choice(sorted(crsdgen.SUPPORT_KINDS))) for _ in range(nsup)]
     release = rng.choice(['UNRESTRICTED'] * 4 + ['R' * rng.randint(700, 1000)])
+    classification = rng.choice(['UNCLASSIFIED'] * 5 + ['UNCLASSIFIED//' + 'C' * rng.randint(700, 1000)])
     target = rng.choice(['bytesio', 'bytesio', 'fileobj', 'fileobj', 'path'])
     style = rng.choice(['complete', 'complete', 'complete', 'random', 'random', 'premature'])
-    return {'kind': kind, 'fmt': fmt, 'sizes': sizes, 'amp_sf': amp, 'support': sup, 'release_info': release, 'target': target,
-            'style': style, 'seed': rng.getrandbits(48)}
+    return {'kind': kind, 'fmt': fmt, 'sizes': sizes, 'amp_sf': amp, 'support': sup, 'release_info': release, 'classification': classification,
+            'target': target, 'style': style, 'seed': rng.getrandbits(48)}
 
 
 def build(case):
@@ -110,8 +115,10 @@ def build(case):
     if case['kind'] == 'CPHD':
         meta = cphdgen.build_meta(case['fmt'], sizes, case['amp_sf'], sup, None)
         meta.CollectionID.ReleaseInfo = case['release_info']
+        meta.CollectionID.Classification = case.get('classification', 'UNCLASSIFIED')
     else:
-        meta = crsdgen.build_meta(case['fmt'], sizes, case['amp_sf'], sup, None, (), 'MONOSTATIC', 'UNCLASSIFIED', case['release_info'])
+        meta = crsdgen.build_meta(case['fmt'], sizes, case['amp_sf'], sup, None, (), 'MONOSTATIC', case.get('classification', 'UNCLASSIFIED'),
+                                  case['release_info'])
     return gen, meta
 
 
@@ -124,7 +131,7 @@ def gen_ops(rng, case, nchan, nsup, rows):
         nv = rows[i]
         cuts = sorted(rng.sample(range(1, nv), min(nv - 1, rng.randint(0, 2)))) if nv > 1 else []
         edges = [0] + cuts + [nv]
-        return [{'op': 'G', 'i': i, 'a': a, 'b': b, 'raw': rng.random() < 0.5, 'by': rng.choice(['name', 'int'])} for a, b in zip(edges[:-1], edges[1:])]
+        return [{'op': 'G', 'i': i, 'a': a, 'b': b, 'raw': rng.random() < (0.3 if case['amp_sf'] else 0.5), 'by': rng.choice(['name', 'int'])} for a, b in zip(edges[:-1], edges[1:])]
     if style in ('complete', 'premature'):
         units = [[{'op': 'P', 'i': i, 'by': rng.choice(['name', 'int'])}] for i in range(nchan)]
         units += [[{'op': 'S', 'j': j, 'by': rng.choice(['name', 'int'])}] for j in range(nsup)]
@@ -136,8 +143,9 @@ def gen_ops(rng, case, nchan, nsup, rows):
         extra = []
         for _ in range(rng.randint(0, 3)):
             extra.append({'op': 'F'})
-        if rng.random() < 0.5:
-            extra.append({'op': 'P', 'i': rng.randrange(nchan), 'by': 'name', 'variant': True})         # repeated PVP write (other values)
+        for _ in range(rng.choice([0, 1, 1, 2]) if case['amp_sf'] else rng.choice([0, 1])):
+            # repeated PVP write with other values and ANOTHER AmpSF column (accepted on real-file targets, refused in memory)
+            extra.append({'op': 'P', 'i': rng.randrange(nchan), 'by': 'name', 'variant': rng.choice([1, 2])})
         if nsup and rng.random() < 0.3:
             extra.append({'op': 'S', 'j': rng.randrange(nsup), 'by': 'name', 'variant': True})
         if rng.random() < 0.3:
@@ -159,7 +167,7 @@ def gen_ops(rng, case, nchan, nsup, rows):
         for _ in range(rng.randint(1, 10)):
             r = rng.random()
             if r < 0.25:
-                ops.append({'op': 'P', 'i': rng.randrange(nchan), 'by': rng.choice(['name', 'int']), 'variant': rng.random() < 0.3})
+                ops.append({'op': 'P', 'i': rng.randrange(nchan), 'by': rng.choice(['name', 'int']), 'variant': rng.choice([0, 0, 1, 2])})
             elif r < 0.4 and nsup:
                 ops.append({'op': 'S', 'j': rng.randrange(nsup), 'by': rng.choice(['name', 'int']), 'variant': rng.random() < 0.3})
             elif r < 0.8:
@@ -182,11 +190,13 @@ def run_history(case, tmpdir):
     _, Writer, _, _ = family(case['kind'])
     rng = random.Random(case['seed'])
     pvp, raw, support = gen.make_pvp(meta, rng), gen.make_raw(meta, rng), gen.make_support(meta, rng)
-    pvp2 = gen.make_pvp(meta, rng)
+    pvp2, pvp3 = gen.make_pvp(meta, rng), gen.make_pvp(meta, rng)
     sup2 = gen.make_support(meta, rng)
-    for k in pvp2:                  # a repeated PVP write carries other values but the same AmpSF (the model does not track scaling values)
+    for k in pvp2:                  # repeated PVP writes carry other values and other AmpSF columns (powers of two: encoding stays exact)
         if 'AmpSF' in pvp2[k].dtype.names:
-            pvp2[k]['AmpSF'] = pvp[k]['AmpSF']
+            pvp2[k]['AmpSF'] = pvp[k]['AmpSF'] * 0.5
+            pvp3[k]['AmpSF'] = pvp[k]['AmpSF'] * 4.0
+    pvp_variants = [pvp, pvp2, pvp3]
     chan_ids = [c.Identifier for c in meta.Data.Channels]
     sup_ids = [s.Identifier for s in (meta.Data.SupportArrays or [])]
     nchan, nsup = len(chan_ids), len(sup_ids)
@@ -219,7 +229,11 @@ def run_history(case, tmpdir):
         segs = list(w.data_segment)
         canreg = w._can_write_regular_data
         obs['in_memory'] = bool(w._in_memory)
-        amp = {k: (pvp[k]['AmpSF'] if 'AmpSF' in pvp[k].dtype.names else None) for k in pvp}
+        has_amp = 'AmpSF' in pvp[chan_ids[0]].dtype.names
+        ffs = [seg.format_function for seg in segs]
+        cur_amp = {k: None for k in chan_ids}        # AmpSF column of the last ACCEPTED write_pvp_array per channel (observed acceptance), and its op number
+        cur_tag = {k: None for k in chan_ids}
+        obs['scaled'] = {k: [] for k in chan_ids}
         for n, op in enumerate(ops):
             before_log = len(fo.log) if target != 'path' else None
             before_img = fo.getvalue() if target == 'bytesio' else None
@@ -228,11 +242,13 @@ def run_history(case, tmpdir):
                 if op['op'] == 'P':
                     i = op['i']
                     ident = chan_ids[i] if i < nchan else 'nochan%d' % i
-                    arr = (pvp2 if op.get('variant') else pvp)[chan_ids[i]] if i < nchan else pvp[chan_ids[0]]
+                    arr = pvp_variants[int(op.get('variant') or 0)][chan_ids[i]] if i < nchan else pvp[chan_ids[0]]
                     if op.get('short'):
                         arr = numpy.concatenate([arr, arr[:1]])
                     obs['data'][n] = arr.tobytes()
                     w.write_pvp_array(ident if op['by'] == 'name' else i, arr)
+                    if has_amp and i < nchan and not op.get('short'):
+                        cur_amp[chan_ids[i]], cur_tag[chan_ids[i]] = numpy.array(arr['AmpSF']), n
                 elif op['op'] == 'S':
                     j = op['j']
                     arr = (sup2 if op.get('variant') else support)[sup_ids[j]]
@@ -243,18 +259,21 @@ def run_history(case, tmpdir):
                     ci = i if i < nchan else 0
                     k = chan_ids[ci]
                     src = raw[k]
+                    # formatted data: the values whose encoding with the scaling in force NOW (the AmpSF of the last accepted PVP write of this
+                    # channel) are exactly the target samples: stored integers must be round(value / current AmpSF) = chunk
                     if b > src.shape[0]:      # rows past the end: data of the right row shape
                         chunk = numpy.concatenate([src] * (b // src.shape[0] + 1))[:b - a]
-                        ach = None if amp[k] is None else numpy.ones((b - a,), dtype=amp[k].dtype)
+                        ach = None if not has_amp else numpy.ones((b - a,), dtype='float64')
                     else:
                         chunk = src[a:b]
-                        ach = None if amp[k] is None else amp[k][a:b]
+                        ach = None if not has_amp else (numpy.ones((b - a,), dtype='float64') if cur_amp[k] is None else cur_amp[k][a:b])
                     obs['data'][n] = numpy.ascontiguousarray(chunk).tobytes()
                     idx = (k if op['by'] == 'name' else ci) if i < nchan else i
                     if op['raw']:
                         w.write_raw(chunk, start_indices=(a, 0, 0), index=idx)
                     else:
                         w.write(cphdgen.formatted(chunk, ach), start_indices=(a, 0), index=idx)
+                        obs['scaled'][k].append((a, b - a, cur_tag[k]))
                 elif op['op'] == 'F':
                     w.flush()
                 else:
@@ -280,6 +299,11 @@ def run_history(case, tmpdir):
                 cnt = int(seg._pixels_written) * numpy.dtype(seg.raw_dtype).itemsize
             cr = bool(canreg[chan_ids[k - nchan - nsup]]) if k >= nchan + nsup else None
             obs['flags'].append((bool(d.item_written), d.item_bytes is not None, cnt, cr))
+        obs['amp_tags'] = [cur_tag[k] for k in chan_ids]
+        obs['amp_installed'] = []           # is the array the format function holds the AmpSF column of that write?
+        for k, ff in zip(chan_ids, ffs):
+            held = getattr(ff, '_amplitude_scaling', None)
+            obs['amp_installed'].append((held is None) if cur_amp[k] is None else (held is not None and numpy.array_equal(numpy.asarray(held, dtype='float64'), cur_amp[k])))
         obs['item_offsets'] = [int(d.item_offset) for d in items]
         obs['hdr_written'] = bool(details._header_written)
         obs['header'] = {f: getattr(hdr, f) for f in hdr._fields}
@@ -394,9 +418,17 @@ def compare(case, obs, ans_hdr, ans_run):
         if obs['hdr_written'] and not obs['bytes'].startswith(hdr_text + b'\f\n'):
             dis.append('rendered header text (Spec.CphdHeaderText.headerBytes) differs from the first bytes of the file')
     parts = [p.strip() for p in ans_run.split(' | ')]
-    if len(parts) != 6:
+    if len(parts) != 7:
         return dis + [f'unreadable model answer {ans_run[:200]!r}']
-    outs, folog, mmlog, flags, tail, runs = parts
+    outs, folog, mmlog, flags, tail, runs, amps = parts
+    # ---- amplitude scaling: which PVP write's AmpSF is installed, and which one every formatted chunk was encoded with
+    tk = lambda v: 'N' if v is None else str(v)
+    i_amps = [tk(t) + '/' + (','.join(f'{a}:{n}:{tk(t2)}' for a, n, t2 in obs['scaled'][k]) or '-') for t, k in zip(obs['amp_tags'], obs['ids'][0])]
+    if amps.split() != i_amps:
+        dis.append(f'amplitude scaling in force differs: model {amps.split()} (channel: installed tag / firstRow:rows:tag of formatted chunks), '
+                   f'observed acceptance history {i_amps}')
+    if not all(obs['amp_installed']):
+        dis.append(f'the format function does not hold the AmpSF column of the last accepted write_pvp_array: {obs["amp_installed"]}')
     # ---- outcomes
     m_outs = [] if outs == '-' else outs.split(',')
     table_n = len(obs['table'])
@@ -558,7 +590,12 @@ def oracle(case, obs, tmpdir):
                             n, rr = next((n, r - op['a']) for n, (op, out) in enumerate(zip(obs['ops'], obs['outs']))
                                          if op['op'] == 'G' and op['i'] == i and out[0] != 'refused' and op['a'] <= r < op['b'])
                             if buf[off + r * rb:off + (r + 1) * rb] != obs['data'][n][rr * rb:(rr + 1) * rb]:
-                                f(f'signal channel {i} row {r}: the bytes at {off + r * rb} are not the data handed to operation {n}')
+                                if obs['ops'][n]['raw']:
+                                    f(f'signal channel {i} row {r}: the bytes at {off + r * rb} are not the data handed to operation {n}')
+                                else:
+                                    tag = next((t for a0, nr, t in obs['scaled'][obs['ids'][0][i]] if a0 <= r < a0 + nr), None)
+                                    f(f'signal channel {i} row {r}: the samples stored at {off + r * rb} by the formatted write (operation {n}) are not '
+                                      f'round(value / AmpSF) for the AmpSF in force at that moment (the column of the last accepted write_pvp_array, operation {tag})')
                                 break
         # (4) complete histories reopen with every array equal
         if info['complete'] and not info['rewrote'] and not problems:
@@ -629,14 +666,33 @@ def history_class(case, obs):
     info = classify(case, obs)
     return (case['kind'], case['target'], obs['in_memory'], case['amp_sf'], min(obs['nchan'], 3), min(obs['nsup'], 2), info['complete'], info['rewrote'],
             any(o[0] == 'refused' for o in obs['outs']), sum(1 for o in obs['ops'] if o['op'] == 'F') > 0,
-            any(o['op'] == 'C' for o in obs['ops'][:-2]), obs['header']['XML_BLOCK_BYTE_OFFSET'] != 1024)
+            any(o['op'] == 'C' for o in obs['ops'][:-2]), obs['header']['XML_BLOCK_BYTE_OFFSET'] != 1024,
+            len(case['release_info']) > 600, len(case.get('classification', '')) > 600,
+            max([len({t for _, _, t in v}) for v in obs['scaled'].values()] or [0]) > 1)      # formatted chunks under two different AmpSF columns
+
+
+def fixed_histories(kind):
+    """histories every run contains, whatever the random draw: block-wise production with a per-vector AmpSF - provisional AmpSF, first block
+    of formatted signal, write_pvp_array again with other AmpSF values, second block - on each target (the repeated call is accepted on
+    real-file targets and refused in memory); the second block must be encoded with the scaling in force when it is written"""
+    out = []
+    for target in ('path', 'fileobj', 'bytesio'):
+        for fmt in ('CI2', 'CF8'):
+            ops = [{'op': 'P', 'i': 0, 'by': 'name'}, {'op': 'G', 'i': 0, 'a': 0, 'b': 3, 'raw': False, 'by': 'name'},
+                   {'op': 'P', 'i': 0, 'by': 'name', 'variant': 1}, {'op': 'G', 'i': 0, 'a': 3, 'b': 5, 'raw': False, 'by': 'int'},
+                   {'op': 'F'}, {'op': 'P', 'i': 0, 'by': 'int', 'variant': 2}, {'op': 'G', 'i': 0, 'a': 5, 'b': 6, 'raw': False, 'by': 'name'},
+                   {'op': 'C'}]
+            out.append({'kind': kind, 'fmt': fmt, 'sizes': [(6, 4)], 'amp_sf': True, 'support': [], 'release_info': 'UNRESTRICTED',
+                        'classification': 'UNCLASSIFIED', 'target': target, 'style': 'fixed', 'seed': 7, 'ops': ops})
+    return out
 
 
 def run_batch(kind, rng, count, tmpdir, drv):
-    """generate and run `count` histories. Returns (jobs, fails, stats, seen)"""
+    """generate and run `count` histories (after the fixed ones). Returns (jobs, fails, stats, seen)"""
     jobs, fails, stats, seen = [], [], {'histories': 0, 'ops': 0, 'refused_ops': 0, 'complete': 0, 'exception_classes': {}}, set()
-    for _ in range(count):
-        case = gen_case(rng, kind)
+    fixed = fixed_histories(kind)
+    for n in range(len(fixed) + count):
+        case = fixed[n] if n < len(fixed) else gen_case(rng, kind)
         try:
             obs = run_history(case, tmpdir)
         except Exception as e:
@@ -677,9 +733,13 @@ def finding_probes(kind, tmpdir):
     path = os.path.join(tmpdir, 'probe.bin')
     # (1) header strings that stress the `KEY := VALUE\n` grammar: a value containing the separator must read back; a value that the
     #     grammar cannot hold (line break) must either be refused by the writer or read back - never produce a file its reader refuses
-    for release, key in (('APPROVED := YES', K_SEPARATOR), ('LINE ONE\nLINE TWO', K_LINEBREAK)):
-        case = {'kind': kind, 'fmt': 'CI2', 'sizes': [(2, 3)], 'amp_sf': False, 'support': [], 'release_info': release, 'target': 'path',
-                'style': 'probe', 'seed': 1}
+    #     (0) markings long enough that the header text exceeds the first-guess XML offset 1024 - each field alone and both: the header must
+    #     still end before the XML block (fixed cases: every run has them, for both families, whatever the random draw)
+    long_r, long_c = 'RELEASE ' * 110, 'UNCLASSIFIED//' + 'CAVEAT ' * 120
+    for release, classification, key in (('APPROVED := YES', 'UNCLASSIFIED', K_SEPARATOR), ('LINE ONE\nLINE TWO', 'UNCLASSIFIED', K_LINEBREAK),
+                                         (long_r.strip(), 'UNCLASSIFIED', None), ('UNRESTRICTED', long_c.strip(), None), (long_r.strip(), long_c.strip(), None)):
+        case = {'kind': kind, 'fmt': 'CI2', 'sizes': [(2, 3)], 'amp_sf': False, 'support': [], 'release_info': release, 'classification': classification,
+                'target': 'path', 'style': 'probe', 'seed': 1}
         try:
             g, meta = build(case)
             rng = random.Random(1)
@@ -694,11 +754,21 @@ def finding_probes(kind, tmpdir):
                 raise
             w.write_file_raw(pvp, raw, None)
             w.close()
+            if key is None:
+                with open(path, 'rb') as fh:
+                    buf = fh.read()
+                problems, kv = g.check_layout(buf, kind)
+                for pr in problems:
+                    fails.append({'kind': 'layout', 'msg': f'{kind} with a {len(release)} character ReleaseInfo and a {len(classification)} character Classification: '
+                                                           'header does not describe the file: ' + pr,
+                                  'case': dict(case, file_bytes=len(buf), file_head_hex=buf[:1536].hex()), 'key': None})
+                if kv and not problems and (kv.get('RELEASE_INFO') != release or kv.get('CLASSIFICATION') != classification):
+                    fails.append({'kind': 'layout', 'msg': f'{kind}: header CLASSIFICATION / RELEASE_INFO differ from CollectionID (long markings)', 'case': case, 'key': None})
             try:
                 rdr = opener(path)
             except Exception as e:
-                fails.append({'kind': 'read', 'msg': f'{kind} with ReleaseInfo {release!r} is written but cannot be reopened: {type(e).__name__}: {str(e)[:120]}',
-                              'case': case, 'key': key})
+                fails.append({'kind': 'read', 'msg': f'{kind} with ReleaseInfo {release[:40]!r} ({len(release)} characters), Classification of {len(classification)} characters is written '
+                                                      f'but cannot be reopened: {type(e).__name__}: {str(e)[:120]}', 'case': case, 'key': key})
                 continue
             try:
                 hdr = getattr(rdr, 'cphd_header', None) or getattr(rdr, 'crsd_header', None)
